@@ -69,7 +69,12 @@ Definition lit (s : string) : list N := bytes_of_string s.
 
 (* ------------------------------------------------------------------ *)
 (* hwloc_obj_type_string *)
-Definition obj_type_string (t : N) : string := nthN obj_type_string_tbl t "Unknown"%string.
+(* table lookups are guarded so that the extracted model never converts a huge
+   type number to unary; same functions as TypeOrder.is_cache / nthN (default
+   beyond the 20 entries) *)
+Definition obj_type_string (t : N) : string :=
+  if t <? HWLOC_OBJ_TYPE_MAX then nthN obj_type_string_tbl t "Unknown"%string else "Unknown"%string.
+Definition tcache (t : N) : bool := if t <? HWLOC_OBJ_TYPE_MAX then is_cache t else false.
 
 (* ------------------------------------------------------------------ *)
 (* hwloc__type_match(string + p, type, minmatch)
@@ -269,7 +274,7 @@ Definition attr_of_vals (v : sscanf_vals) (attrsize : option N) : attr_write :=
   match attrsize with
   | None => AWnone                                             (* attrp == NULL *)
   | Some sz =>
-    if is_cache (sv_type v) && (SIZEOF_ATTR_CACHE <=? sz) then AWcache (sv_depth v) (sv_ctype v)
+    if tcache (sv_type v) && (SIZEOF_ATTR_CACHE <=? sz) then AWcache (sv_depth v) (sv_ctype v)
     else if (sv_type v =? HWLOC_OBJ_GROUP) && (SIZEOF_ATTR_GROUP <=? sz) then AWgroup (sv_depth v)
     else if (sv_type v =? HWLOC_OBJ_BRIDGE) && (SIZEOF_ATTR_BRIDGE <=? sz) then AWbridge (sv_ub v) (Z.of_N HWLOC_OBJ_BRIDGE_PCI)
     else if (sv_type v =? HWLOC_OBJ_OS_DEVICE) && (SIZEOF_ATTR_OSDEV <=? sz) then AWosdev (sv_os v)
@@ -391,7 +396,7 @@ Definition type_snprintf_pieces_gen (loop : bool) (o : tobj) (flags : N) : pr (l
   if (t =? HWLOC_OBJ_MISC) || (t =? HWLOC_OBJ_MACHINE) || (t =? HWLOC_OBJ_NUMANODE) || (t =? HWLOC_OBJ_MEMCACHE)
      || (t =? HWLOC_OBJ_PACKAGE) || (t =? HWLOC_OBJ_DIE) || (t =? HWLOC_OBJ_CORE) || (t =? HWLOC_OBJ_PU)
   then PrOk [lit (obj_type_string t)]
-  else if is_cache t
+  else if tcache t
   then PrOk [[76] ++ dec (to_cdepth o) ++ cache_letter (to_ctype o) ++ (if longn then lit "Cache" else [])]
   else if t =? HWLOC_OBJ_GROUP
   then if negb (to_gdepth o =? NEG1U) then PrOk [lit (obj_type_string t) ++ dec (to_gdepth o)]
@@ -469,7 +474,7 @@ Definition busid_text (a : aobj) (sep : list N) : list N :=
   ++ [46] ++ hex_w 1 (ao_pfunc a) ++ sep ++ lit "id=" ++ hex_w 4 (ao_pvendor a) ++ [58] ++ hex_w 4 (ao_pdevice a)
   ++ sep ++ lit "class=" ++ hex_w 4 (ao_pclass a) ++ [40] ++ ao_pclass_text a ++ [41] ++ linkspeed_text a sep.
 
-Definition is_attr_cache_type (t : N) : bool := is_cache t || (t =? HWLOC_OBJ_MEMCACHE).
+Definition is_attr_cache_type (t : N) : bool := tcache t || (t =? HWLOC_OBJ_MEMCACHE).
 
 (* the list of steps; PrAssert for a Bridge whose downstream type is not PCI in verbose mode *)
 Definition attr_snprintf_ops (a : aobj) (sep : list N) (flags : N) : pr (list pop) :=
